@@ -238,14 +238,18 @@ theorem meanSf_level_linear (c : Cal ℝ) (flb : ℝ) (freqs : List ℝ) (L d x 
     getMeanSf c flb freqs (L + d) 0 = .val ((10 : ℝ) ^ (d / 20) * x) := by
   rw [getMeanSf_level_map, h, Res.map_val]
 
-/-- `chirp` = `√2·sf·w·sin(2π·phase)` with `sf = get_mean_sf(f0, f1, level)`: +d dB multiplies every sample by
-`10^(d/20)` (the unit-level chirp `proto` depends on the window and the frequencies, not on the level). -/
-theorem chirp_level_linear (c : Cal ℝ) (f0 : ℝ) (freqs : List ℝ) (L d x : ℝ) (proto : List ℝ)
+/-- `chirp` (model `chirp`: `√2·sf·(w/rms w)·sin(2π·cumsum(ifreq)/fs)` from the window samples `w`) with
+`sf = get_mean_sf(f0, f1, level)`: +d dB multiplies every sample by `10^(d/20)`, through any calibration. -/
+theorem chirp_level_linear (c : Cal ℝ) (fs f0 f1 : ℝ) (freqs : List ℝ) (L d x : ℝ) (w : List ℝ)
     (h : getMeanSf c f0 freqs L 0 = .val x) :
     ∃ x', getMeanSf c f0 freqs (L + d) 0 = .val x' ∧
-      scaled (nat 1) x' proto = (scaled (nat 1) x proto).map ((10 : ℝ) ^ (d / 20) * ·) :=
-  ⟨_, meanSf_level_linear c f0 freqs L d x h, by
-    rw [← scaled_level_linear]⟩
+      chirp fs f0 f1 x' w = (chirp fs f0 f1 x w).map ((10 : ℝ) ^ (d / 20) * ·) :=
+  ⟨_, meanSf_level_linear c f0 freqs L d x h, chirp_scale _ fs f0 f1 x w⟩
+
+/-- the chirp's envelope `w / util.rms(w)` has RMS exactly 1 (so that `√2·sf·envelope·sin` is a unit-RMS-envelope
+sinusoid of RMS amplitude `sf`; the 1 s RMS itself is `sf` only up to the sweep's cross terms — oracle, 0.5 dB). -/
+theorem chirp_envelope_unit_rms (w : List ℝ) (hw : rmsL w ≠ 0) : rmsL (w.map (· / rmsL w)) = 1 :=
+  rmsL_normalized w hw
 
 /-- `ClickFactory`: `polarity * get_sf(0, level) * ones(n)` — level through the calibration. -/
 theorem click_level_linear (c : Cal ℝ) (L d x pol : ℝ) (n : ℕ) (h : getSf c 0 L 0 = .val x) :
@@ -339,5 +343,7 @@ example := loadWav_rms_level 2 [3, -4] (by rw [rmsL_real]; simp; norm_num) (by n
 example := loadWav_pe_level 2 (-1) [3, 2] (by rw [lmaxFrom_real]; simp; norm_num) (by norm_num)
 example := rampedTone_polarity ([0, 0.5, 1] : List ℝ) 2 1000 100 0 0
 example := meanSf_level_linear (Cal.fromSpl (94 : ℝ) 1 0) 1000 [] 60 20 _ rfl
+example := chirp_level_linear (Cal.fromSpl (94 : ℝ) 1 0) 20000 1000 2000 [] 60 20 _ [1, 1, 1] rfl
+example := chirp_envelope_unit_rms [3, -4] (by rw [rmsL_real]; simp; norm_num)
 
 end Psi.Db
